@@ -329,6 +329,52 @@ func cacheSeqSpaceOver(name string, cacheKeys []string, caps []int, maxLen int) 
 	}
 }
 
+// replace2Space: two replace() calls in ONE expression whose patterns have
+// different numbers of groups and whose templates / subjects are the same
+// literal text (nothing about one call's template may leak into the other).
+func replace2Space() *explore.Space {
+	pats := []string{"(a)", "(a)(b)", "a", "((a)(b))", "(a)(b)(c)(d)(e)(f)(g)(h)(i)(j)", "b"}
+	tmpls := []string{"[$1]", "$2$1", "[$10]", "$1$1", "x", "$0", "[$3]"}
+	subj := []string{"ab", "abcdefghijk", "[$1]", "aab"}
+	return &explore.Space{
+		Name: "Replace2", Desc: "concat(replace(s1,p1,r), '|', replace(s2,p2,r)) over 6 patterns (0..10 groups) x 7 templates x 4 subjects (one subject equal to a template)", Size: len(pats) * len(pats),
+		Label: func(i int) string { return pats[i/len(pats)] + " / " + pats[i%len(pats)] },
+		Run: func(i int, w *explore.Worker) {
+			p1, p2 := pats[i/len(pats)], pats[i%len(pats)]
+			re1, re2 := regexp.MustCompile(p1), regexp.MustCompile(p2)
+			for _, r := range tmpls {
+				for _, s1 := range subj {
+					for _, s2 := range subj {
+						for form := 0; form < 2; form++ {
+							var f, want string
+							if form == 0 {
+								f = "concat(replace(" + quoteX(s1) + ", " + quoteX(p1) + ", " + quoteX(r) + "), '|', replace(" + quoteX(s2) + ", " + quoteX(p2) + ", " + quoteX(r) + "))"
+								want = re1.ReplaceAllString(s1, ref.DollarBrace(r, re1.NumSubexp())) + "|" + re2.ReplaceAllString(s2, ref.DollarBrace(r, re2.NumSubexp()))
+							} else {
+								f = "concat(replace(" + quoteX(s1) + ", " + quoteX(p1) + ", " + quoteX(r) + "), '|', " + quoteX(r) + ", '|', replace(" + quoteX(r) + ", " + quoteX(p2) + ", " + quoteX(s2) + "))"
+								want = re1.ReplaceAllString(s1, ref.DollarBrace(r, re1.NumSubexp())) + "|" + r + "|" + re2.ReplaceAllString(r, ref.DollarBrace(s2, re2.NumSubexp()))
+							}
+							w.Eval()
+							w.NonTrivialCase(f)
+							o := c16Eval(f, "")
+							if o.Kind == "str" && o.S == want {
+								w.EngOutcome("agree")
+								continue
+							}
+							w.EngOutcome("differ")
+							c16Fail(w, "Replace2", f, "", fmt.Sprintf("str:%q", want), o.String(), "value")
+						}
+					}
+				}
+			}
+			w.RefOutcome("n/a")
+			if i == 7 {
+				w.Sample("concat(replace('ab', '" + p1 + "', '[$1]'), '|', replace('ab', '" + p2 + "', '[$1]'))")
+			}
+		},
+	}
+}
+
 // smallCacheSpace swaps the package's RegexpCache for caches of capacity 0, 1
 // and 2 with a counting loader and evaluates every sequence of matches() /
 // replace() calls over 4 patterns (one of them invalid): results stay exact,
@@ -561,9 +607,9 @@ func init() {
 			}
 		},
 		Spaces: func(tier string) []*explore.Space {
-			sp := []*explore.Space{matchSpace(4), replaceSpace(3), perNodeSpace(2), cacheSeqSpace(6), cacheSeqSpaceOver("CacheSeqBig", cacheKeysBig, []int{4, 5}, 6), smallCacheSpace(4)}
+			sp := []*explore.Space{matchSpace(4), replaceSpace(3), replace2Space(), perNodeSpace(2), cacheSeqSpace(6), cacheSeqSpaceOver("CacheSeqBig", cacheKeysBig, []int{4, 5}, 6), smallCacheSpace(4)}
 			if tier == "thorough" {
-				sp = []*explore.Space{matchSpace(5), replaceSpace(4), perNodeSpace(3), cacheSeqSpace(8), cacheSeqSpaceOver("CacheSeqBig", cacheKeysBig, []int{4, 5, 6}, 8), smallCacheSpace(6)}
+				sp = []*explore.Space{matchSpace(5), replaceSpace(4), replace2Space(), perNodeSpace(3), cacheSeqSpace(8), cacheSeqSpaceOver("CacheSeqBig", cacheKeysBig, []int{4, 5, 6}, 8), smallCacheSpace(6)}
 			}
 			if c16Extra != nil {
 				sp = append(sp, c16Extra(tier)...)
